@@ -140,6 +140,50 @@ def removals (log : List (Event κ)) (k : κ) : Nat := log.countP (Event.isRemov
 /-- what a caller holding flight `f` returns once it is done -/
 def outcome (s : State κ) (f : Nat) : Option Status := (s.flights[f]?).map (·.status)
 
+/-! ### statement level
+
+The cache is keyed by `keyOf t` (the string `keyFor` computes), but what a flight's goroutine PREPAREs is the
+statement TEXT of the caller that published the flight (`stmt` captured by the closure in prepareStatement), on
+that caller's connection (host, current keyspace): `sent[f]`. An executor of triple t that finds flight f under
+`keyOf t` EXECUTEs with the id the server returned for `sent[f]`. -/
+
+inductive TAction
+  | lookup (t : Triple)                            -- prepareStatement(t.text) on a connection to t.host with keyspace t.ks
+  | complete (f : Nat) (r : Option (List UInt8))   -- the flight's goroutine got the answer to PREPARE sent[f].text
+  | unprepared (t : Triple) (id : List UInt8)      -- UNPREPARED for an execution of t → evictPreparedID(keyOf t, id)
+
+def TAction.key : TAction → Action (List UInt8)
+  | .lookup t => .lookup (keyOf t)
+  | .complete f r => .complete f r
+  | .unprepared t id => .unprepared (keyOf t) id
+
+structure TState where
+  s    : State (List UInt8)
+  /-- sent[f]: the triple whose text flight f's goroutine PREPAREs -/
+  sent : List Triple
+
+def tinit (cap : Int) : TState := { s := init cap, sent := [] }
+
+/-- a lookup that published a new flight records the publisher's triple -/
+def TAction.sentAfter (a : TAction) (sent : List Triple) (grew : Bool) : List Triple :=
+  match a with
+  | .lookup t => if grew then sent ++ [t] else sent
+  | _ => sent
+
+def tstep (x : TState) (a : TAction) : Option TState :=
+  match step x.s a.key with
+  | none => none
+  | some s' => some { s := s', sent := a.sentAfter x.sent (decide (s'.flights.length ≠ x.s.flights.length)) }
+
+def trun (x : TState) : List TAction → Option TState
+  | [] => some x
+  | a :: as => match tstep x a with
+    | none => none
+    | some x' => trun x' as
+
+/-- the flight an executor of t is handed by `execIfMissing` (if cached) -/
+def TState.flightOf (x : TState) (t : Triple) : Option Nat := x.s.cache.find (keyOf t)
+
 end Prepare
 
 /-!
